@@ -206,6 +206,56 @@ func init() {
 		Outside:  "strings with more than two simultaneously symbolic runes beyond length 3; in the quick tier in-range accuracy and monotonicity of the 9.xxx types are decided for the four distinct clamp pairs (9.001, 9.002, 9.004, 9.027) and only saturation/shape for the other sixteen (all share packF16; C06 decides their in-range re-encoding per type)",
 		Assume:   []string{"tolerance step*(1+2^-10) absorbs the decoder's own float32 evaluation error (DESIGN B.3)"},
 	})
+
+	c01 := func(maxL int64, descrL int64) []Inst {
+		var out []Inst
+		svcs := []int64{0x0201, 0x0202, 0x0203, 0x0204, 0x0205, 0x0206, 0x0207, 0x0208, 0x0209, 0x020a, 0x0420, 0x0421, 0x0530, 0x0531, 0x0532, 0x0999, -1}
+		for _, svc := range svcs {
+			for _, g := range []int64{0, 32} {
+				for L := int64(0); L <= maxL; L++ {
+					if (svc == 0x0204 || svc == -1) && L > descrL {
+						break
+					}
+					out = append(out, Inst{Pkg: "knxnet", Fn: "HarnessC01Unpack", Args: []int64{svc, L, g, 0}, Unwind: int(L) + 12})
+				}
+			}
+		}
+		for _, g := range []int64{0, 32} {
+			// description responses, case split on the first DIB's type octet
+			for L := int64(8); L <= 63; L++ {
+				if L > descrL {
+					out = append(out, Inst{Pkg: "knxnet", Fn: "HarnessC01Unpack", Args: []int64{0x0204, L, g, 1}, Unwind: int(L) + 12, Note: "first DIB = device information"})
+				}
+			}
+			for _, t1 := range []int64{2, 3, 0xfe, 0x77} {
+				for L := descrL + 1; L <= descrL+2; L++ {
+					out = append(out, Inst{Pkg: "knxnet", Fn: "HarnessC01Unpack", Args: []int64{0x0204, L, g, t1}, Unwind: int(L) + 12, Note: "first DIB type fixed"})
+				}
+			}
+			// search responses around their nominal size
+			for L := int64(66); L <= 78; L++ {
+				if L > maxL {
+					out = append(out, Inst{Pkg: "knxnet", Fn: "HarnessC01Unpack", Args: []int64{0x0202, L, g, 0}, Unwind: int(L) + 12})
+				}
+			}
+			codes := []int64{0x2B, 0x11, 0x29, 0x2E, 0x10, 0x2D, 0x2F, 0x77, -1}
+			for _, code := range codes {
+				for L := int64(0); L <= maxL; L++ {
+					out = append(out, Inst{Pkg: "cemi", Fn: "HarnessC01Cemi", Args: []int64{code, L, g}, Unwind: int(L) + 12})
+				}
+			}
+		}
+		return out
+	}
+	reg(&Spec{
+		ID:       "C01",
+		Quick:    func(l *loaded) []Inst { return c01(20, 13) },
+		Thorough: func(l *loaded) []Inst { return c01(64, 15) },
+		Covers:   []string{"C01.accepted", "C01.rejected"},
+		Bounds:   "knxnet.Unpack under each of the 15 service identifiers, an unknown identifier and a fully symbolic header, cemi.Unpack under the 7 message codes, another code and a symbolic code; every datagram length 0..20 (quick) / 0..64 (thorough), every byte symbolic; each decoded from an exact-capacity slice (G=0) and as a prefix of a buffer with 32 symbolic garbage bytes behind it; description responses: fully symbolic up to 13 (15) bytes, beyond that case-split on the first DIB type (device information up to 63 bytes, others two bytes further); search responses additionally at 66..78 bytes",
+		Outside:  "datagrams longer than the stated lengths (up to 1024); sequences of more than ~5 small description blocks; the socket receivers (see C16)",
+		Assume:   []string{"obligations: no panic, loop bound length+12 never reached (termination), accepted => consumed <= length, no read of a byte at or beyond the datagram length (engine region check; natively confirmed by re-running with different garbage)"},
+	})
 }
 
 func dptWireLen(m int64) int64 {
